@@ -30,6 +30,6 @@ rundemo() {
 rundemo "$@" && echo "HEAD: demo passes" || { echo "HEAD: demo FAILS (bad seed)"; tail -5 /tmp/demo-$$.log; }
 git apply "$d/patch.diff" || { echo "patch does not apply"; exit 1; }
 go build ./... && echo "patched: builds" || { echo "patched: build FAILS"; exit 1; }
-go test -vet=off -count=1 ./... >/tmp/suite-$$.log 2>&1 && echo "patched: suite passes" || { echo "patched: suite FAILS"; grep -E "^(FAIL|---)|tests_test.go" /tmp/suite-$$.log | head -5; }
+unshare -n sh -c "ip link set lo up && go test -vet=off -count=1 ./..." >/tmp/suite-$$.log 2>&1 && echo "patched: suite passes" || { echo "patched: suite FAILS"; grep -E "^(FAIL|---)|tests_test.go" /tmp/suite-$$.log | head -5; }
 rundemo "$@" && echo "patched: demo passes (bad seed)" || { echo "patched: demo fails (good)"; tail -3 /tmp/demo-$$.log | cut -c1-300; }
 rm -f /tmp/demo-$$.log /tmp/suite-$$.log
